@@ -11,7 +11,7 @@ from extract import ExtractionError
 
 UTILS = "prqlc/prqlc/src/utils/mod.rs"
 
-LABELS = ["RX1", "RX2", "RX3"]
+LABELS = ["RX1", "RX1h", "RX2", "RX3"]
 FUNCTIONS = []
 RLIMIT = 60
 
@@ -20,7 +20,7 @@ TRUSTED = [
     "the regex crate implements the pattern language: for the subset this unit accepts (anchors, groups, alternation, classes with ranges, escaped literals, a trailing * or +) "
     "Regex::is_match(s) is re_match(s) as generated here; unit ident_quote states what is done with the answer (bare only if valid_ident matches and the name is no keyword)",
     "oracle (C09): an unquoted SQL token is read back as the same identifier only if it does not start with a digit (else it lexes as a number) and consists of lower-case ASCII "
-    "letters, digits, `_` and `$` (upper-case letters are case-folded by the database, anything else ends the token); the star is the one exception (RX1). Conversely ordinary "
+    "letters, digits and `_` (upper-case letters are case-folded by the database, anything else ends the token; NOT `$`: sqlformat, through which the default output goes, and several engines read `$x` as a parameter - an earlier version of this oracle allowed `$`, the executed sweep with a column `a$b` showed that it must not); the star is the one exception (RX1). Conversely ordinary "
     "lower-case names stay bare (RX2), so that user names are emitted as written",
 ]
 
@@ -200,7 +200,7 @@ verus! {
 pub open spec fn re_match(s: Seq<char>) -> bool {
     %s
 }
-pub open spec fn word_char(c: char) -> bool { (c >= 'a' && c <= 'z') || (c >= '0' && c <= '9') || c == '_' || c == '$' }
+pub open spec fn word_char(c: char) -> bool { (c >= 'a' && c <= 'z') || (c >= '0' && c <= '9') || c == '_' }
 pub open spec fn digit(c: char) -> bool { c >= '0' && c <= '9' }
 // an unquoted token that SQL reads back as this very identifier (or the star)
 pub open spec fn bare_safe(s: Seq<char>) -> bool {
@@ -213,7 +213,7 @@ proof fn rx1(s: Seq<char>)
     ensures re_match(s) ==> bare_safe(s), // @RX1
 {
     if re_match(s) && !(s.len() == 1 && s[0] == '*') {
-        assert forall|i: int| 0 <= i < s.len() implies word_char(#[trigger] s[i]) by { if i == 0 {} else {} }
+        assert forall|i: int| 0 <= i < s.len() implies word_char(#[trigger] s[i]) by { if i == 0 {} else {} } // @RX1h
     }
 }
 proof fn rx2(s: Seq<char>)
